@@ -297,3 +297,4 @@ mutant("c08-promotion-type-not-updated", "C08", PPF, "    value.const_value = pr
 mutant("c08-shape-from-elsewhere", "C08", PPF, "            output.shape = unknown_shape\n", "            output.shape = ir.Shape(tuple(None for _ in unknown_shape.dims)) if force_rank_only else unknown_shape\n            output.shape = ir.Shape((1,))\n", expect="shape-write")
 benign("c08-benign-guard-split", "C08", PPF, "            name = _value_name(output)\n            if name and name in io_names:\n                continue\n", "            name = _value_name(output)\n            if name:\n                if name in io_names:\n                    continue\n")
 mutant("c11-attribute-through-helper-mapping", "C11", "jax2onnx/plugins/flax/nnx/elu.py", 'attrs["alpha"] = float(alpha)', 'attrs["slope"] = float(alpha)', expect="slope")
+mutant("c02-swish-operands-not-compared", "C02", OPT, "        if isinstance(sigmoid_input, ir.Value) and _same_value(\n            sigmoid_input, passthrough\n        ):", "        if isinstance(sigmoid_input, ir.Value):", expect="_same_value")
